@@ -215,7 +215,8 @@ SPEC = PropertySpec(
     replay=replay,
     rule=('random systems: pool lattice, 1-3 floating Li + 1-3 framework atoms of O/S, 2-6 frames of dyadic coordinates, 2-4 sites '
           'with ALTERNATING labels (A,B,A,... or A,B,C,A) so that a label shift is visible, random site histories (real Transitions '
-          'object), resolution in {0.25,0.5,1}, cut-off in {2,3.5,5}. radial_distribution: every y array per (state, symbol) compared '
+          'object), resolution in {0.25,0.5,1,0.3,0.7,1.1}, cut-off in {2,3.5,5,3.3,4} (also cut-offs that are not a multiple of the bin width), '
+          'read-only queries (displacements of the diffusing / full trajectory, speed) made between building the Transitions and the RDF. radial_distribution: every y array per (state, symbol) compared '
           'exactly with brute-force counts from certified minimum-image distances, states named by the label of the current / most '
           'recent / next site ("~>" states pooled); total = number of pairs within the cut-off; '
           'radial_distribution_between_species: y x shell normalisation = raw histogram (left-closed bins), symmetric in the two '
